@@ -44,6 +44,10 @@ def step (st : Option Seg) (ws : List String) : Option Seg × String :=
       | none => (some s, "err " ++ hdr s)
     | none => (st, "bad-op")
   | some s, ["reset"] => let s' := reset s; (some s', "ok " ++ hdr s')
+  | some s, ["attachsz", d] => match d.toInt? with
+    -- validateHeader: the header's data_size must equal the attacher's mapping size minus the header
+    | some k => (st, s!"attach-ok={validateAttach (encodeHeader s) (Int.toNat (s.size + k))}")
+    | none => (st, "bad-op")
   | some s, ["attach"] =>
     -- another process decodes the live header bytes
     match decodeHeader (encodeHeader s) with
